@@ -21,7 +21,7 @@ type c4Gen struct {
 	Name  string   `json:"name"`
 	Mode  string   `json:"mode"`
 	Alias bool     `json:"alias,omitempty"`
-	Parts []string `json:"parts"` // docecho | valuemap | refs | counter
+	Parts []string `json:"parts"` // docecho | valuemap | refs | counter | valuecompete
 }
 
 type c4Case struct {
@@ -34,6 +34,15 @@ type c4Case struct {
 	// Perms: alternative orders of Entries (indexes)
 	Perms    [][]int `json:"perms,omitempty"`
 	Children int     `json:"children"`
+	// Base: OutputFileBaseName; names that sort before the hand-written files (a generated file is then the first file of its package)
+	Base string `json:"base,omitempty"`
+}
+
+func (c c4Case) base() string {
+	if c.Base == "" {
+		return "zz_generated"
+	}
+	return c.Base
 }
 
 var c4Refs = []string{"errors.New", "unicode/utf8.RuneError", "math/bits.Len", "sort.Strings", "unicode.IsSpace", "strconv.Itoa"}
@@ -44,7 +53,7 @@ func genC04(t *rapid.T) c4Case {
 	c := c4Case{ModCase: genMod(t, o)}
 	for _, n := range names {
 		g := c4Gen{Name: n, Mode: rapid.SampledFrom([]string{"fixed", "new"}).Draw(t, "mode"), Alias: rapid.Bool().Draw(t, "alias")}
-		for _, p := range []string{"docecho", "valuemap", "refs", "counter"} {
+		for _, p := range []string{"docecho", "valuemap", "refs", "counter", "valuecompete"} {
 			if rapid.IntRange(0, 2).Draw(t, "part-"+p) > 0 {
 				g.Parts = append(g.Parts, p)
 			}
@@ -82,6 +91,7 @@ func genC04(t *rapid.T) c4Case {
 		}
 	}
 	c.Children = rapid.IntRange(0, 1).Draw(t, "children")
+	c.Base = rapid.SampledFrom([]string{"zz_generated", "zz_generated", "api_generated", "a", "generated", "doc_generated"}).Draw(t, "base")
 	return c
 }
 
@@ -94,6 +104,8 @@ func (g c4Gen) script() *script.Script {
 			pieces = append(pieces, script.Piece{Kind: "docecho"})
 		case "valuemap":
 			pieces = append(pieces, script.Piece{Kind: "block", Text: "\nvar _$G_$T_map = "}, script.Piece{Kind: "value", Text: `{"zeta":1,"alpha":2,"mid":3,"beta":4,"omega":5,"a b":6,"Z":7}`}, script.Piece{Kind: "block", Text: "\n"})
+		case "valuecompete":
+			pieces = append(pieces, script.Piece{Kind: "block", Text: "\nvar _$G_$T_table = "}, script.Piece{Kind: "valuecompete"}, script.Piece{Kind: "block", Text: "\n"})
 		case "refs":
 			text := "\n"
 			for i := range c4Refs {
@@ -175,7 +187,7 @@ func oracleC04(c c4Case) error {
 				entries = append(entries, entry(c.Entries[i]))
 			}
 		}
-		return script.RunSpec{Dir: dir, Entrypoints: entries, All: c.All, Globals: c.Globals, Base: "zz_generated", Scripts: scripts, Real: c.Real}
+		return script.RunSpec{Dir: dir, Entrypoints: entries, All: c.All, Globals: c.Globals, Base: c.base(), Scripts: scripts, Real: c.Real}
 	}
 	check := func(label string, res script.RunResult) error {
 		if res.LoadErr != "" {
@@ -195,13 +207,13 @@ func oracleC04(c c4Case) error {
 		return err
 	}
 	refTree := mustSnapshot(dir)
-	refView := generatedView(refTree, "zz_generated")
+	refView := generatedView(refTree, c.base())
 	refSig := callSig(ref.Calls)
 	compare := func(label string, res script.RunResult) error {
 		if err := check(label, res); err != nil {
 			return err
 		}
-		v := generatedView(mustSnapshot(dir), "zz_generated")
+		v := generatedView(mustSnapshot(dir), c.base())
 		if d := diffViews(refView, v); d != "" {
 			return fmt.Errorf("%s from the same initial tree gives different output: %s", label, d)
 		}
@@ -305,6 +317,9 @@ func c4Features(c c4Case) []string {
 	}
 	if c.All {
 		fs["all"] = true
+	}
+	if c.base() < "doc" {
+		fs["generated-file-sorts-first"] = true
 	}
 	if c.Children > 0 {
 		fs["fresh-process"] = true
